@@ -100,21 +100,39 @@ def dumpJson (d : List (String × String × Nat)) : Json :=
 
 def hasKey (d : Dump) (k : String) : Bool := d.any (·.1 == k)
 
-/-- does the implementation's result match the model's?  `ListWorkloads` with a limit returns an
-    arbitrary `limit`-sized part of the key range: any such part is accepted. -/
+/-- status text of the record `w` as `bindWorkloadsAdditions` would look it up for `w` itself -/
+def statusText (s : St) (w : WlRec) : String :=
+  match parseWorkloadName w.name with
+  | .ok (a, e, _) =>
+    match s.kv.get (.wst a e w.node w.id) with
+    | some { val := .wst r, .. } => r.render
+    | _ => "-"
+  | .error _ => "-"
+
+/-- does the implementation's result match the model's?
+    * `ListWorkloads` with a limit returns an arbitrary `limit`-sized part of the key range: any such
+      part is accepted.
+    * `bindWorkloadsAdditions` keeps the status keys in a map indexed by workload ID: when one list
+      contains two records with the same ID (the same id recorded under another app/node), both get
+      the status of whichever of them comes last in the backend's iteration order (Go map order on
+      Redis).  For such lists any same-ID record's status is accepted. -/
 def resMatch (s : St) (op : Op) (model : Res) (impl : Json) : Bool :=
   match op with
-  | .listWorkloads a e n (lim + 1) ls =>
+  | .listWorkloads a e n lim ls =>
     let cands := listCandidates s a e n
-    let views := cands.filterMap fun w =>
-      match bindAdditions s [w] with
-      | .ok [v] => if labelsFilter w.labels ls then some v.render else none
-      | _ => none
-    let broken := cands.any fun w => match bindAdditions s [w] with | .ok _ => false | .error _ => true
+    let ids := cands.map (·.id)
+    let dupIds := ids.length != (dedup ids).length
+    if lim == 0 && !dupIds then resJson model == impl else
+    let okW := fun (w : WlRec) => match bindAdditions s [w] with | .ok _ => true | .error _ => false
+    let allowed := (cands.filter fun w => okW w && labelsFilter w.labels ls).flatMap fun w =>
+      (cands.filter (·.id == w.id)).map fun w' => w.render ++ "|" ++ statusText s w'
+    let broken := cands.any fun w => !okW w
+    let passing := (cands.filter fun w => labelsFilter w.labels ls).length
     if jhas impl "ok" then
       let got := strs (jget impl "ok")
-      got.all (views.contains ·) && got.length ≤ lim + 1 &&
-        (!ls.isEmpty || broken || got.length == min (lim + 1) cands.length)
+      got.all (allowed.contains ·) &&
+        (if lim == 0 then !broken && got.length == passing
+         else got.length ≤ lim && (!ls.isEmpty || broken || got.length == min lim cands.length))
     else broken && (jstr (jget impl "err") == "notfound" || jstr (jget impl "err") == "bad-name")
   | _ => resJson model == impl
 
